@@ -59,7 +59,7 @@ class RegionsMergingISDFilter(ISDFilter):
       region_id = region.get_id()
       for body in region:
 
-        for child in body:
+        for child in list(body):
           # Remove child from its parent body
           child.remove()
 
